@@ -39,6 +39,8 @@ K_ARCHIVE = "registry-name-with-archive-suffix"
 K_FILE_NONE = "git-file-url-empty-host-prints-None"
 K_SUBDIR_DOT = "vcs-subdirectory-with-dot-becomes-revision"
 K_COMMENT = "marker-literal-with-blank-hash-cut-as-comment"
+K_INEXTRAS = "in-extras-from-disjunctive-marker"
+K_LOCAL = "local-version-bound-printed-with-ordered-operator"
 
 CORPUS_TEXTS = [
     "foo", "Foo_Bar[A_b,c.D] >=1,<2", "foo (>=1.0,!=1.5,<2.0) ; python_version >= '3.8'", "foo[]", "foo==1.0.*", "foo!=1.0.*",
@@ -59,10 +61,14 @@ CORPUS_FINDINGS = [
     (K_WHEEL, {"ctor": {"kind": "url", "name": "X1", "url": "https://example.com/foo-1.0-py3-none-any.whl", "directory": None, "extras": [], "marker": "",
                         "python": None, "py_first": False}}),
     (K_ARCHIVE, {"ctor": {"kind": "registry", "name": "foo.zip", "constraint": ">=1.0", "extras": [], "marker": "", "python": None, "py_first": False}}),
-    (K_FILE_NONE, {"text": "foo @ git+file:///srv/repo.git@v1"}),
+    (K_FILE_NONE, {"ctor": {"kind": "vcs", "name": "foo", "source": "file:///srv/repo.git", "form": "file", "branch": None, "tag": "v1", "rev": None,
+                            "directory": None, "extras": [], "marker": "", "python": None, "py_first": False}}),
     (K_SUBDIR_DOT, {"ctor": {"kind": "vcs", "name": "foo", "source": "https://github.com/org/repo.git", "branch": None, "tag": None, "rev": None,
                              "directory": "src/my.pkg", "extras": [], "marker": "", "python": None, "py_first": False}}),
-    (K_COMMENT, {"ctor": {"kind": "registry", "name": "foo", "constraint": "*", "extras": [], "marker": 'platform_version == "a #1"', "python": None, "py_first": False}}),
+    (K_COMMENT, {"ctor": {"kind": "registry", "name": "foo", "constraint": "*", "extras": [], "marker": '"SMP #1" in platform_version', "python": None, "py_first": False}}),
+    (K_INEXTRAS, {"ctor": {"kind": "registry", "name": "foo", "constraint": "*", "extras": [], "marker": 'python_version >= "3.7" or extra == "b"', "python": "^3.9",
+                           "py_first": False}}),
+    (K_LOCAL, {"ctor": {"kind": "registry", "name": "foo", "constraint": "!=2+local,~=2.0.0", "extras": [], "marker": "", "python": None, "py_first": False}}),
 ]
 
 
@@ -173,6 +179,10 @@ def classify(d: Any, text: str | None, src: Any) -> str | None:
     from poetry.core.packages.vcs_dependency import VCSDependency
     if d is not None and not d.is_direct_origin() and GD.looks_like_archive(d.pretty_name):
         return K_ARCHIVE
+    if d is not None and d.in_extras and "extra" not in str(d.marker):
+        return K_INEXTRAS
+    if d is not None and not d.is_direct_origin() and text and re.search(r"[<>]=?[^,;)\s]*\+", text.split(";")[0]):
+        return K_LOCAL
     if isinstance(d, VCSDependency):
         if "://None/" in (d.source or "") or "://None/" in (text or ""):
             return K_FILE_NONE
@@ -192,6 +202,11 @@ def oracle(ctx: core.Ctx, d: Any, witness: dict[str, Any], envs: list[dict[str, 
     why = outside_domain(d)
     if why:
         ctx.count("oracle:skipped:" + why)
+        return
+    c = witness.get("ctor") if isinstance(witness, dict) else None
+    if c and c.get("kind") == "vcs" and c.get("form") in ("https", "http", "ssh", "git", "file", "file-host") and d.source_url != c["source"]:
+        # a location already written as scheme://[user@]host[:port]/path must be kept as it is
+        ctx.violate(classify(d, None, witness) or f"source-changed:{c['source']}", f"VCSDependency(source={c['source']!r}) has source_url {d.source_url!r}", witness)
         return
     try:
         text = d.to_pep_508()
@@ -252,6 +267,8 @@ def outside_domain(d: Any) -> str | None:
         return "name-not-pep508"
     if d.constraint.is_empty() or d.marker.is_empty():
         return "unsatisfiable"          # nothing can satisfy it
+    if any(x and re.search(r"\s", x) for x in (d.source_url, d.source_reference, d.source_subdirectory)):
+        return "url-with-whitespace"
     c = d.constraint
     if not d.is_direct_origin() and isinstance(c, VersionUnion) and not (c.excludes_single_version or c.excludes_single_wildcard_range):
         parts = d.pretty_constraint.split(",")
